@@ -301,6 +301,12 @@ func (fi *FuncInfo) MustCross(target ssa.Instruction, pass func(Atom) bool) Gate
 
 // MustCrossEdges is MustCross restricted to gate edges accepted by edgeOK (nil = all).
 func (fi *FuncInfo) MustCrossEdges(target ssa.Instruction, pass func(Atom) bool, edgeOK func(Edge) bool) GateResult {
+	return fi.MustCrossOrPass(target, pass, edgeOK, nil)
+}
+
+// MustCrossOrPass: every path to target crosses a passing edge or executes an
+// instruction satisfying instrPass (which then acts like an assert-style gate).
+func (fi *FuncInfo) MustCrossOrPass(target ssa.Instruction, pass func(Atom) bool, edgeOK func(Edge) bool, instrPass func(ssa.Instruction) bool) GateResult {
 	fn := fi.Fn
 	if target.Parent() != fn {
 		return GateResult{OK: false, Witness: "target not in function"}
@@ -331,6 +337,12 @@ func (fi *FuncInfo) MustCrossEdges(target ssa.Instruction, pass func(Atom) bool,
 						assertAt[b] = i
 						gates++
 					}
+				}
+			}
+			if instrPass != nil && instrPass(in) {
+				if _, ok := assertAt[b]; !ok {
+					assertAt[b] = i
+					gates++
 				}
 			}
 		}
@@ -716,11 +728,16 @@ func (fi *FuncInfo) AlwaysFollowedBy(from ssa.Instruction, hit func(ssa.Instruct
 // AlwaysFollowedByE additionally accepts CFG edges whose atom satisfies edgeHit
 // as discharging the obligation (e.g. "the entry is not a configuration").
 func (fi *FuncInfo) AlwaysFollowedByE(from ssa.Instruction, hit func(ssa.Instruction) bool, edgeHit func(Atom) bool) FollowResult {
+	return fi.AlwaysFollowedFrom(from.Block(), instrIndex(from)+1, hit, edgeHit)
+}
+
+// AlwaysFollowedFrom starts the obligation at instruction index idx of block b0.
+func (fi *FuncInfo) AlwaysFollowedFrom(b0 *ssa.BasicBlock, idx int, hit func(ssa.Instruction) bool, edgeHit func(Atom) bool) FollowResult {
 	type pos struct {
 		b *ssa.BasicBlock
 		i int
 	}
-	start := pos{from.Block(), instrIndex(from) + 1}
+	start := pos{b0, idx}
 	seen := map[*ssa.BasicBlock]bool{}
 	type item struct {
 		p    pos
